@@ -3,7 +3,8 @@ import collections
 
 from .common import stable_hash, jsonable
 
-MAX_VIOLATIONS_PER_SHARD = 200
+MAX_VIOLATIONS_PER_SHARD = 2000
+MAX_VIOLATIONS_PER_SIGNATURE = 25
 MAX_SAMPLES_PER_SHARD = 3
 
 
@@ -45,9 +46,15 @@ class Result:
         known findings (must not contain seeds, hashes or random values)."""
         self.violation_count += 1
         self.counters['violation:' + kind] += 1
-        if len(self.violations) < MAX_VIOLATIONS_PER_SHARD:
-            s = {'kind': kind}
-            s.update(sig or {})
+        s = {'kind': kind}
+        s.update(sig or {})
+        # the cap is per mechanism signature: thousands of witnesses of one
+        # (possibly known) mechanism must not crowd out another one
+        key = stable_hash(jsonable(s))
+        self._per_sig = getattr(self, '_per_sig', {})
+        self._per_sig[key] = self._per_sig.get(key, 0) + 1
+        if self._per_sig[key] <= MAX_VIOLATIONS_PER_SIGNATURE and \
+                len(self.violations) < MAX_VIOLATIONS_PER_SHARD:
             self.violations.append({
                 'kind': kind, 'case': jsonable(case),
                 'detail': jsonable(detail), 'sig': jsonable(s)})
